@@ -251,6 +251,18 @@ def strategies(max_steps):
             new = c + "2" if len(c) < 12 else c[:1]
             if new in cols:
                 new = c + "3"
+            shape = draw(st.integers(0, 5))
+            same_kind = [x for x in cols if x != c and kinds.get(x, "i") == kinds.get(c, "i")]
+            if shape >= 3 and same_kind:
+                # one call that renames several columns at once; pandas applies the mapping simultaneously, so a
+                # new name may be an old name of the same call (swap, shift) without creating a duplicate.  The
+                # columns exchanged hold the same kind of value (the GIR viewers need numeric stmt_id columns)
+                d = pick(draw, same_kind)
+                if shape == 3:
+                    return ["rename", {c: d, d: c}]
+                if shape == 4:
+                    return ["rename", {c: d, d: new}]
+                return ["rename", {d: new, c: d}]
             return ["rename", {c: new}]
         if name == "set_columns":
             new = [c.upper() if c.upper() != c else c.lower() for c in cols]
